@@ -241,8 +241,14 @@ def py_str(ip, val):
         if isinstance(val.py, (str, int, bool, type(None))) or isinstance(val.py, float):
             return C(str(val.py))
     k = kind_of(ip, val)
+    if k is None and isinstance(val, S):
+        k = resolve_kind(ip, val, ('int', 'str', 'float', 'none', 'bool'))
+        if k == 'none':
+            return C('None')
+        if k == 'bool':
+            return T(z3.If(V.b(val.t), z3.StringVal('True'), z3.StringVal('False')))
     if k == 'str':
-        return val
+        return val if not isinstance(val, S) else T(V.s(val.t))
     if k == 'int':
         used('str(int): injective decimal text (STR_OF_INT uninterpreted)')
         return T(STR_OF_INT(int_term(ip, val)))
@@ -809,7 +815,18 @@ def dict_method(ip, d, name, args, kwargs):
                 raise_('TypeError', 'unhashable type')
             return default
         kt = key_term(ip, key)
-        if ctx.branch(h.dhas(ref, kt)):
+        has = z3.simplify(h.dhas(ref, kt))
+        if not (is_t(has) or is_f(has)) and isinstance(norm(ip, default), (C, S, B, I, R, T)):
+            try:
+                dt = ctx.to_term(default)
+            except OutOfReach:
+                dt = None
+            if dt is not None and not (isinstance(default, C) and isinstance(default.py, (list, tuple, dict))):
+                # fork-free: d.get(k, default) as a conditional value
+                v = h.dget(ref, kt)
+                ctx.assume(z3.Implies(has, wf_value(h, v)))
+                return norm(ip, S(z3.If(has, v, dt)))
+        if ctx.branch(has):
             return norm(ip, ctx.loaded(h.dget(ref, kt)))
         return default
     if name == 'keys':
@@ -839,6 +856,9 @@ def dict_method(ip, d, name, args, kwargs):
                               NK=z3.Store(h.NK, ref, nk), KEY=z3.Store(h.KEY, ref, keys))
             return C(None)
         if isinstance(src, Obj) and src.kind == 'genexp':
+            big = update_missing_from_table(ip, d, ref, src)
+            if big:
+                return C(None)
             from .models_loops import genexp_items
             for it in genexp_items(ip, src):
                 kv = unpack(ip, it, 2)
@@ -848,6 +868,52 @@ def dict_method(ip, d, name, args, kwargs):
     if name == 'pop':
         raise OutOfReach('dict.pop')
     raise OutOfReach(f'dict method {name}')
+
+
+def update_missing_from_table(ip, d, ref, gen):
+    """d.update(item for item in TABLE.items() if item[0] not in d) for a large constant TABLE: every table key that
+    is missing from d is added with the table's value; existing keys are untouched (key order of the additions is
+    left unspecified)."""
+    ctx = ip.ctx
+    node, frame = gen.f['node'], gen.f['frame']
+    if len(node.generators) != 1:
+        return False
+    g = node.generators[0]
+    if not (isinstance(g.target, ast.Name) and isinstance(node.elt, ast.Name) and node.elt.id == g.target.id):
+        return False
+    if not (isinstance(g.iter, ast.Call) and isinstance(g.iter.func, ast.Attribute) and g.iter.func.attr == 'items'):
+        return False
+    table = ip.eval(frame, g.iter.func.value)
+    if not (isinstance(table, C) and isinstance(table.py, dict) and len(table.py) > 8):
+        return False
+    if len(g.ifs) != 1:
+        return False
+    cond = g.ifs[0]
+    ok = (isinstance(cond, ast.Compare) and len(cond.ops) == 1 and isinstance(cond.ops[0], ast.NotIn) and
+          isinstance(cond.left, ast.Subscript) and isinstance(cond.left.value, ast.Name) and
+          cond.left.value.id == g.target.id and isinstance(cond.left.slice, ast.Constant) and cond.left.slice.value == 0)
+    if not ok:
+        return False
+    other = norm(ip, ip.eval(frame, cond.comparators[0]))
+    if not (isinstance(other, S) and z3.simplify(V.dref(other.t)).eq(ref)):
+        return False
+    name = TABLE_NAMES.get(id(table.py))
+    if name is None:
+        return False
+    used(f'{name}: dict.update(items missing from the target) modelled with the table as an uninterpreted map')
+    has_t = ufun(f'TABLE_HAS_{name}', Str, Bool)
+    val_t = ufun(f'TABLE_{name}', Str, V)
+    h = ctx.heap
+    k = z3.String('k!tbl')
+    ha, va = z3.Select(h.HAS, ref), z3.Select(h.VAL, ref)
+    has = z3.Lambda([k], z3.Or(z3.Select(ha, k), has_t(k)))
+    val = z3.Lambda([k], z3.If(z3.Select(ha, k), z3.Select(va, k), val_t(k)))
+    nk = ctx.fresh('nk_upd', Int)
+    keys = ctx.fresh('keys_upd', ArrIntS)
+    ctx.assume(nk >= h.dnk(ref))
+    ctx.heap = h.copy(HAS=z3.Store(h.HAS, ref, has), VAL=z3.Store(h.VAL, ref, val), NK=z3.Store(h.NK, ref, nk),
+                      KEY=z3.Store(h.KEY, ref, keys))
+    return True
 
 
 def str_method(ip, s, name, args):
@@ -982,6 +1048,8 @@ def call_modattr(ip, name, args, kwargs, frame):
         return Obj('flag', name=name)
     if name == 're.match':
         rx, subj = args[0], args[1]
+        if not (isinstance(rx, Obj) and rx.kind == 'regex'):
+            raise OutOfReach('re.match with a non-constant pattern')
         from .models_regex import regex_method
         return regex_method(ip, rx, 'match', [subj], {})
     if name == 're.escape':
